@@ -414,7 +414,28 @@ func (cw *c04World) genMessage(c *simkit.Chooser) (topic string, data []byte, wa
 		// the flavour's own validator is satisfied whenever that is possible at all (genuine
 		// signatures of the listed keypers over the message's final fields), so that the core
 		// rule is what decides
-		if ok, fwhy := cw.attachFlavourExtra(c, sh, km); !ok {
+		ok, fwhy := cw.attachFlavourExtra(c, sh, km)
+		if ok && c.Chance(120, "spoil-flavour-extra") {
+			// ... or deliberately not: one bit of one signature flipped, everything else intact
+			ok, fwhy = false, "signature bit flipped"
+			if sh != nil {
+				switch x := sh.Extra.(type) {
+				case *p2pmsg.DecryptionKeyShares_Gnosis:
+					x.Gnosis.Signature[c.Intn(64, "spoil-pos")] ^= 1
+				case *p2pmsg.DecryptionKeyShares_Service:
+					x.Service.Signature[c.Intn(64, "spoil-pos")] ^= 1
+				}
+			} else {
+				switch x := km.Extra.(type) {
+				case *p2pmsg.DecryptionKeys_Gnosis:
+					x.Gnosis.Signatures[0][c.Intn(64, "spoil-pos")] ^= 1
+				case *p2pmsg.DecryptionKeys_Service:
+					x.Service.Signature[0][c.Intn(64, "spoil-pos")] ^= 1
+				}
+			}
+			desc += " +spoiled-" + w.fl.String() + "-extra"
+		}
+		if !ok {
 			if want {
 				why = "flavour validator: " + fwhy
 			}
